@@ -524,6 +524,7 @@ fn write_evidence(sc: &dyn Scenario, b: &Batch, seed: u64, tier: Tier, threads: 
     let mut transports = J::obj();
     let mut other = J::obj();
     let mut bsig = 0;
+    let mut pairs = 0;
     for (k, v) in &b.stats.c {
         let j = J::Int(*v as i64);
         if let Some(r) = k.strip_prefix("steps.") {
@@ -536,6 +537,8 @@ fn write_evidence(sc: &dyn Scenario, b: &Batch, seed: u64, tier: Tier, threads: 
             transports.set(r, j);
         } else if k.starts_with("bsig.") {
             bsig += 1;
+        } else if k.starts_with("pair.") {
+            pairs += 1;
         } else {
             other.set(k, j);
         }
@@ -547,6 +550,9 @@ fn write_evidence(sc: &dyn Scenario, b: &Batch, seed: u64, tier: Tier, threads: 
     cov.set("counters", other);
     if bsig > 0 {
         cov.set("chunk_boundary_signature_matrix_cells_hit", J::str(format!("{bsig} of 169 (byte class before x byte class after a chunk boundary)")));
+    }
+    if pairs > 0 {
+        cov.set("operation_pair_cells_hit", J::str(format!("{pairs} distinct (operation directly followed by operation) pairs executed on the shared object")));
     }
     let gaps: Vec<J> = sc.reach_probes().into_iter().filter(|p| b.stats.get(p) == 0).map(J::str).collect();
     cov.set("reach_gaps", J::Arr(gaps));
